@@ -131,6 +131,8 @@ type peerStream struct {
 	overSent  int64 // bytes sent beyond the advertised window on purpose
 	overAt    time.Time
 	scriptEnd bool
+	rawSent   []byte // the message byte stream queued on this stream (framing oracle)
+	respEnc   string // grpc-encoding announced in the response headers
 	scriptIdle bool // the script is in a sleep/hang or finished: it owes the client nothing right now
 }
 
@@ -805,6 +807,9 @@ func (pc *peerConn) sendHeaders(ps *peerStream, op SOp) {
 	}
 	for _, kv := range op.MD {
 		hf = append(hf, hpack.HeaderField{Name: kv.K, Value: kv.val()})
+		if kv.K == "grpc-encoding" {
+			ps.respEnc = kv.val()
+		}
 	}
 	ps.hdrSent = true
 	pc.put(outItem{kind: 'H', sid: ps.id, fields: hf})
@@ -1002,6 +1007,9 @@ func (pc *peerConn) runScript(ps *peerStream, script []SOp) {
 			}
 			pc.w.noteSent(ps, info)
 			ps.sentMsgs++
+			if pc.w.sc.has("framing") {
+				ps.rawSent = append(ps.rawSent, body...)
+			}
 			if !pc.sendBytes(ps, body, op, op.End, false) {
 				e.Logf("peer conn %d stream %d: send aborted at op %d", pc.idx, ps.id, oi)
 				return
